@@ -506,7 +506,12 @@ impl ObjFileFormat for TextFormat {
                 ".DEBUG" => if !rest.is_empty() {
                     let split_pos = rest.iter().position(|l| l.starts_with('='))?;
                     if !rest.last()?.starts_with('=') { return None; }
-                    let (label_src, [_, line_src @ .., _]) = rest.split_at(split_pos) else { unreachable!("divider should be present") };
+                    let (label_src, line_part) = rest.split_at(split_pos);
+                    // A single divider (a symbol table without debug symbols) means there is no line table.
+                    let line_src = match line_part {
+                        [_, line_src @ .., _] => line_src,
+                        _ => &[],
+                    };
 
                     let label_table = parse_table(label_src, ["LABEL", "INDEX"], |[label, index_str], _| {
                         let index = index_str.parse().ok()?;
